@@ -20,9 +20,11 @@ def run_stateful(out, prop, tier, rng, work, files, gen, oracle, n_quick, n_thor
     runs = []
     viol = []
     names = []
+    storms = []
 
     def do(sc, name):
         res = (runner or scen.run)(sc)
+        storm = any(e[2] == 'STORM' for e in res.trace)
         runs.append((sc, res))
         names.append(name)
         nt = nontrivial(sc, res)
@@ -31,17 +33,26 @@ def run_stateful(out, prop, tier, rng, work, files, gen, oracle, n_quick, n_thor
             vs = oracle(sc, res)
         except Exception as ex:       # the trace is so far off that the oracle cannot interpret it
             vs = [dict(kind='oracle-cannot-interpret-trace', error='%s: %s' % (type(ex).__name__, ex))]
+        if storm and not vs:
+            vs = [dict(kind='exchange-never-ends', events=[e[3] for e in res.trace if e[2] == 'STORM'][0])]
         for v in vs:
             viol.append((v, sc, name))
+        if storm:
+            # an exchange that never ended (cut by the harness after a bound on events): decisive for the oracle, useless and
+            # very large for the correspondence — keep the verdict, drop the bulk of the trace
+            storms.append(len(runs) - 1)
+            res.trace = [e for e in res.trace if e[2] not in ('tx', 'rx', 'wake')][:20000] + [e for e in res.trace if e[2] == 'STORM']
     for name, sc in load_corpus(prop):
         do(sc, 'corpus/' + name)
-    for k in range(n):
+        if storms:
+            break
+    for k in range(0 if storms else n):
         do(gen(rng, k), 'gen-%d' % k)
-        if any(v.get('kind') == 'handler-did-not-return' for v, _, _ in viol):
+        if any(v.get('kind') == 'handler-did-not-return' for v, _, _ in viol) or storms:
             break           # decisive, and every further scenario that hits the same loop costs wall-clock time
     if correspond:
         # scenarios with injected transmit errors are outside the model (its Emit never fails): oracle only
-        keep = [i for i, (sc, res) in enumerate(runs) if not (sc.get('tx_errors') or sc.get('oracle_only'))]
+        keep = [i for i, (sc, res) in enumerate(runs) if not (sc.get('tx_errors') or sc.get('oracle_only')) and i not in storms]
         if corr_max is not None:
             keep = keep[:corr_max]
         cr = [runs[i] for i in keep]
